@@ -509,23 +509,6 @@ def convertBase (W : Nat) (B NewB : Nat) (m : Mode) (p : Nat) (r : FRepr) : Conv
           | .error _ => .unlimitedPrecision
     else .lnExp
 
-/-- the precision `with_base` derives: `B^p.log2_bounds().0 / NewB.log2_bounds().1` in `f32`,
-    truncated (`as usize`) -/
-def withBasePrecisionEst (W B NewB p : Nat) : Nat :=
-  let lb := (Dashu.Model.NT.log2BoundsNat W (B ^ p)).1
-  let ub := (Dashu.Model.NT.log2BoundsPrim NewB).2
-  let q := lb / ub
-  if q.isNaN then 0 else q.floor.toUInt64.toNat
-
-/-- the precision `FBig::with_base` hands to `with_base_and_precision`: exact (`n·p` resp. `p / n`)
-    when one base is a power of the other (fix 003ffef), the `f32` estimate otherwise -/
-def withBasePrecision (W : Nat) (B NewB p : Nat) : Nat :=
-  let down := ilogExact B NewB
-  let up := ilogExact NewB B
-  if down > 1 then p * down
-  else if up > 1 then p / up
-  else withBasePrecisionEst W B NewB p
-
 /-- the documented precision: the max `q` with `NewB^q ≤ B^p` -/
 def withBasePrecisionSpec (B NewB p : Nat) : Nat :=
   if NewB < 2 then 0
@@ -536,6 +519,17 @@ def withBasePrecisionSpec (B NewB p : Nat) : Nat :=
       | 0 => q
       | fuel + 1 => if pw * NewB ≤ target then go fuel (q + 1) (pw * NewB) else q
     go (Nat.log2 target + 1) 0 1
+
+/-- the precision `FBig::with_base` hands to `with_base_and_precision`: `n·p` resp. `p / n` when one base
+    is a power of the other (fix 003ffef), and otherwise the exact integer logarithm
+    `(B^p).ilog(NewB)` (fix: the `f32` log2 estimate used before could be one less than the documented
+    maximum and differed between 32- and 64-bit words); `W` is kept for the callers' signature only -/
+def withBasePrecision (_W : Nat) (B NewB p : Nat) : Nat :=
+  let down := ilogExact B NewB
+  let up := ilogExact NewB B
+  if down > 1 then p * down
+  else if up > 1 then p / up
+  else withBasePrecisionSpec B NewB p
 
 -- ---------------------------------------------------------------- TryFrom<f32 / f64>
 
